@@ -6,15 +6,20 @@ the Hopcroft–Karp union–find loop, `_find_state` over the lazy product and t
 digraph.  Property oracle (independent of both): complete product search over pairs of
 states for a word in the symmetric difference / in A∖B / in A∩B; emptiness by
 reachability of a final state; finiteness by cycle detection on the useful states.
+Round 7: deep / large operand pairs (1100–3000 states) judged by closed form — see `deep_large_family` and
+harness/dfa_cmp_deep.py.
 """
 from __future__ import annotations
 
 import json
+import os
+import sys
 
 from automata.fa.dfa import DFA
 
 from harness import gen, langoracle
 from harness import dfa_history_lib as H
+from harness import dfa_cmp_deep as DC
 from harness.common import guarded, Ctx, Toks, call, enc_dfa, sym_names, toks
 from harness.ops.C04 import reachable_count
 
@@ -40,8 +45,28 @@ RULE = ("cases = ordered pairs of valid DFAs over one alphabet (and single DFAs 
         "isfinite / the nine comparisons) on the same two objects, plus every DFA with ≤2 states over {a,b} and every "
         "unary DFA with ≤3 states × one counting / sampling / enumeration query of length k ≤ 2n+1 before isempty / "
         "isfinite (every 4th combination in the quick tier); every C06 answer judged on the definition, failing "
-        "histories minimised into concrete replays")
+        "histories minimised into concrete replays; round 7: deep_large family = 17 PAIR templates, every one in every "
+        "run, of automata with 1100–3000 states built by the library's constructors (of_length exact n vs n+1, ≤ n vs "
+        "≤ n+1, ≥ n vs ≥ n+1; from_finite_language {a^n} vs of_length(n, n), {(ab)^m} vs {(ab)^(m-1)aa}, vs one more "
+        "word; hand-written partial chains with one final state toggled at the far end / the last edge relabelled / no "
+        "final state at all; chains ending in a cycle with a final state toggled on the cycle, dead cycle vs live "
+        "cycle, a lasso vs the same language with the cycle unrolled twice (equal, and with one final state toggled); "
+        "count_mod m vs 2m with m = 1100–1300 (equal / strict subset); a counter mod m = 1100–3000 with the final state "
+        "m-1 toggled; two counters with coprime moduli 90–140 whose only common words start at depth m1·m2-1 — the one "
+        "inherently quadratic shape), partners differing only AT DEPTH or not at all; per pair: all nine comparisons "
+        "in BOTH operand orders + isempty / isfinite of both operands = 22 answers, each under a watchdog, judged by the "
+        "CLOSED FORM of the two languages (ultimately periodic length slices, integer arithmetic; no model round trip "
+        "for the large pairs); the closed form is tied to the built objects by accepts_input on boundary words and by "
+        "small twins (same templates, 3–9 states) on which it must coincide with the product-search / reachability / "
+        "cycle oracles and which also go through the model; sizes drawn from the seed; a wrong answer is re-asked "
+        "alone on newly built objects and recorded as a replay of the two specs + the query")
 ASSUMPTIONS = ["operands are valid DFAs over the same alphabet (different alphabets are outside the property)",
+               "deep_large family: the closed form (harness/dfa_cmp_deep.py) describes the language the constructor is "
+               "documented to build; it is tied to the object actually built by accepts_input on boundary words of both "
+               "operands (a disagreement is reported as a correspondence difference, the pair is then not judged) — that "
+               "the constructors build the right automaton at these sizes is C15's statement; a real call that does not "
+               "answer within 8 s counts as a wrong answer (no C06 decision needs more than 0.15 s at these sizes on the "
+               "unchanged tree)",
                "histories: the queries asked between the C06 queries are read-only queries of the public DFA API with "
                "arguments in their own domains (lengths ≥ 0, start strings over the alphabet, forward successor search with a "
                "max_length); their answers are not judged here (C13 / C14 own them) — only what they leave behind matters",
@@ -52,8 +77,13 @@ ASSUMPTIONS = ["operands are valid DFAs over the same alphabet (different alphab
                "definition; the RuntimeError of a cached query on a garbage-collected temporary (third-party "
                "cached_method keeps only a weak reference) is exercised by the probe family and reported under the open "
                "finding C06:cached-query-on-temporary; no Lean witness is possible for it"]
-EXPLANATION = ("Theorems C06_* (Props/C06.lean) are about the model; this run ties the model to the code and evaluates "
-               "every answer on the real code against an independent complete product search.")
+EXPLANATION = ("Theorems C06_* (Props/C06.lean) are about the model, for operands of any size; this run ties the model to "
+               "the code on small operands and evaluates every answer of the real code against an independent complete "
+               "product search.  The proofs have no size bound but the correspondence is sampled, so the real code is also "
+               "asked at sizes where an implementation — unlike the model — can start to fail: pairs of DFAs with "
+               "1100–3000 states (beyond Python's frame limit, beyond small cache / buffer / work bounds) whose languages "
+               "differ only at the far end, all nine comparisons in both operand orders and isempty / isfinite, judged by "
+               "a closed form computed from the construction parameters (neither the library nor the model is asked).")
 
 NAMES = ["==", "!=", "<=", "<", ">=", ">", "issubset", "issuperset", "isdisjoint"]
 FINDING_TEMP = "C06:cached-query-on-temporary"
@@ -775,8 +805,305 @@ def history_family(ctx: Ctx, n_random: int):
             return
 
 
+# ------------------------------------------------------------------ round 7: deep / large operands
+# Why: C06 quantifies over ALL pairs of valid DFAs, of any size.  Every other family of this module draws operands
+# with ≤ 14 states, so anything in the decision procedures (the union–find loop of __eq__, _bfs_states / _find_state
+# over the lazy product, the digraph walk of isfinite) or in a helper they call that only goes wrong above a SIZE
+# THRESHOLD — a loop rewritten as recursion (Python's frame limit is hit near depth 1000), a "safety" bound on the
+# number of visited pairs, a bounded cache, a fixed-size table, a quadratic copy — is out of their reach.  This
+# family builds PAIRS of automata with 1100–3000 states through the library's own constructors (DFA.of_length,
+# DFA.from_finite_language, DFA.count_mod, hand-written partial chains / chains ending in live or dead cycles /
+# counters mod m) whose languages differ only AT DEPTH (a length bound ±1, the last symbol of one long word, one
+# final state toggled at the far end of the chain or of the cycle) or not at all (the same language built twice in
+# different shapes), and asks all nine comparisons in BOTH operand orders plus isempty / isfinite of both operands.
+# The languages are known in CLOSED FORM from the construction parameters (harness/dfa_cmp_deep.py: ultimately
+# periodic sequences of length slices, compared by integer arithmetic), so the answers need neither the library
+# nor the Lean model: NO model round trip is made for the large pairs (stat
+# `deep_large:closed_form_oracle_no_model_round_trip`).  The closed form is tied to the real objects twice:
+# (1) selfcheck — closed-form membership vs the real accepts_input on boundary words of BOTH automata around the
+# depth at which the pair differs; (2) small twins — the same pair templates with 3–9 states, where the closed-form
+# answers must coincide with this module's product-search / reachability / cycle oracles, and the pair also goes
+# through do_cmp / do_emptyfin (model ↔ code ↔ oracle).
+# Sizes: all of these decision procedures are linear in the number of reachable PAIRS, and the pairs of a chain
+# pair run in lockstep, so depths of 1100–3000 cost 5–30 ms per comparison on the unchanged tree; the one
+# inherently quadratic shape (two counters with coprime moduli: m1·m2 reachable pairs, the only common word at
+# depth m1·m2 − 1) uses moduli of 90–140.  Every real call runs under a watchdog (a timeout is an observation).
+DEEP_LARGE_TIMEOUT_S = 8
+CMP_CALLS = {"==": lambda X, Y: X == Y, "!=": lambda X, Y: X != Y, "<=": lambda X, Y: X <= Y, "<": lambda X, Y: X < Y,
+             ">=": lambda X, Y: X >= Y, ">": lambda X, Y: X > Y, "issubset": lambda X, Y: X.issubset(Y),
+             "issuperset": lambda X, Y: X.issuperset(Y), "isdisjoint": lambda X, Y: X.isdisjoint(Y)}
+
+
+def _chain(syms, n, pat, finals, back=None, flip=None, names="int"):
+    return dict(kind="chain", syms=syms, n=n, pat=pat, finals=sorted(finals), back=back, flip=flip, names=names)
+
+
+def deep_large_plan(rng, small: bool):
+    """[(tag, specA, specB)] — the shapes are fixed (every one in every run), the sizes are drawn from rng.
+    small = the same templates with 3–7 states on the path (the twins)."""
+    ab, a = ["a", "b"], ["a"]
+    lin = (lambda: rng.randint(3, 7)) if small else (lambda: rng.randint(1100, 1300) if rng.random() < 0.75 else rng.randint(1300, 3000))
+    half = (lambda: rng.randint(3, 5)) if small else (lambda: rng.randint(1100, 1300))     # the partner has 2× as many
+    quad = (lambda: rng.randint(2, 4)) if small else (lambda: rng.randint(90, 140))
+    plan = []
+    # -- library constructors, length bound ±1
+    n = lin()
+    plan.append(("of_length_exact_n_vs_n+1", dict(kind="of_length", syms=ab, lo=n, hi=n),
+                 dict(kind="of_length", syms=ab, lo=n + 1, hi=n + 1)))
+    n, lo = lin(), rng.randint(0, 2)
+    plan.append(("of_length_upto_n_vs_n+1", dict(kind="of_length", syms=ab, lo=lo, hi=n),
+                 dict(kind="of_length", syms=ab, lo=lo, hi=n + 1)))
+    n = lin()
+    plan.append(("of_length_atleast_n_vs_n+1", dict(kind="of_length", syms=a, lo=n, hi=None),
+                 dict(kind="of_length", syms=a, lo=n + 1, hi=None)))
+    n = lin()
+    plan.append(("finite_language_vs_of_length_equal", dict(kind="finite_language", syms=a, words=[["a", n, ""]]),
+                 dict(kind="of_length", syms=a, lo=n, hi=n)))
+    m = max(2, lin() // 2)
+    plan.append(("finite_language_last_symbol", dict(kind="finite_language", syms=ab, words=[["ab", m, ""]]),
+                 dict(kind="finite_language", syms=ab, words=[["ab", m - 1, "aa"]])))
+    m = max(2, lin() // 2)
+    plan.append(("finite_language_one_more_word", dict(kind="finite_language", syms=ab, words=[["ab", m, ""]]),
+                 dict(kind="finite_language", syms=ab, words=[["ab", m, ""], ["ab", m - 1, "aa"], ["b", 1, ""]])))
+    # -- hand-written chains: one final state toggled at the far end / the last edge relabelled
+    n, j = lin(), rng.randint(0, 2)
+    plan.append(("chain_final_toggled_at_far_end", _chain(ab, n, None, {j, n}, names="str"), _chain(ab, n, None, {j}, names="str")))
+    n = lin()
+    pat = rng.choice(["ab", "aab", "abb"])
+    other = "a" if pat[(n - 1) % len(pat)] == "b" else "b"
+    plan.append(("chain_last_edge_relabelled", _chain(ab, n, pat, {n}), _chain(ab, n, pat, {n}, flip=[n - 1, other])))
+    n = lin()
+    plan.append(("chain_empty_vs_one_deep_word", _chain(ab, n, "ab", set()), _chain(ab, n, "ab", {n})))
+    # -- chains ending in cycles
+    n, c = lin(), rng.randint(2, 3)
+    plan.append(("lasso_final_toggled_on_cycle", _chain(ab, n, "ab", {n}, back=n - c + 1),
+                 _chain(ab, n, "ab", {n, n - 1}, back=n - c + 1)))
+    n, c = lin(), rng.randint(1, 3)
+    t = n - c + 1
+    plan.append(("dead_cycle_vs_live_cycle", _chain(a, n, None, {t - 1}, back=t), _chain(a, n, None, {t - 1, n}, back=t)))
+    n, c = lin(), rng.randint(1, 3)
+    t = n - c + 1
+    plan.append(("lasso_vs_unrolled_equal", _chain(a, n, None, {n}, back=t), _chain(a, n + c, None, {n, n + c}, back=t)))
+    n, c = lin(), rng.randint(1, 3)
+    t = n - c + 1
+    plan.append(("lasso_vs_unrolled_one_toggled", _chain(a, n, None, {n}, back=t), _chain(a, n + c, None, {n}, back=t)))
+    # -- counters mod m, m in the thousands
+    m = half()
+    r = rng.randrange(m)
+    plan.append(("count_mod_m_vs_2m_equal", dict(kind="count_mod", syms=ab, m=m, rem=[r]),
+                 dict(kind="count_mod", syms=ab, m=2 * m, rem=[r, r + m])))
+    m = half()
+    r = rng.randrange(m)
+    plan.append(("count_mod_2m_vs_m_sub", dict(kind="count_mod", syms=ab, m=2 * m, rem=[r + m]),
+                 dict(kind="count_mod", syms=ab, m=m, rem=[r])))
+    m = lin()
+    r = rng.randrange(m - 1)
+    plan.append(("cycle_final_toggled_at_far_end", _chain(a, m - 1, None, {r}, back=0), _chain(a, m - 1, None, {r, m - 1}, back=0)))
+    # -- inherently quadratic: coprime moduli, the only common words at depth m1·m2 − 1 (+ multiples of m1·m2)
+    m1 = quad()
+    m2 = m1 + 1
+    plan.append(("coprime_counters_common_word_at_depth", _chain(a, m1 - 1, None, {m1 - 1}, back=0),
+                 _chain(a, m2 - 1, None, {m2 - 1}, back=0)))
+    return plan
+
+
+def deep_large_queries():
+    qs = [dict(q="cmp", order=o, name=nm) for o in ("AB", "BA") for nm in NAMES]
+    qs += [dict(q=q, on=on) for on in "AB" for q in ("isempty", "isfinite")]
+    return qs
+
+
+def deep_large_show(q: dict) -> str:
+    if q["q"] == "cmp":
+        x, y = q["order"]
+        return f"{x}.{q['name']}({y})" if q["name"].startswith("is") else f"{x} {q['name']} {y}"
+    return f"{q['on']}.{q['q']}()"
+
+
+def deep_large_want(LA, LB, q: dict, memo: dict = None):
+    """What the two closed forms dictate for one query (memo: the two comparison vectors of a pair, computed once)."""
+    if q["q"] == "cmp":
+        memo = {} if memo is None else memo
+        if q["order"] not in memo:
+            X, Y = (LA, LB) if q["order"] == "AB" else (LB, LA)
+            memo[q["order"]] = DC.compare(X, Y)[0]
+        return memo[q["order"]][NAMES.index(q["name"])]
+    L = LA if q["on"] == "A" else LB
+    return L.empty() if q["q"] == "isempty" else L.finite()
+
+
+def deep_large_ask(A: DFA, B: DFA, q: dict):
+    """One query on the live objects: ("ok", value) / ("err", class name) / ("err", "_Timeout")."""
+    if q["q"] == "cmp":
+        X, Y = (A, B) if q["order"] == "AB" else (B, A)
+        f = CMP_CALLS[q["name"]]
+        return H.L.guarded(lambda: f(X, Y), DEEP_LARGE_TIMEOUT_S)
+    x = A if q["on"] == "A" else B
+    return H.L.guarded((lambda: x.isempty()) if q["q"] == "isempty" else (lambda: x.isfinite()), DEEP_LARGE_TIMEOUT_S)
+
+
+def deep_large_what(LA, LB, q: dict, got, want) -> str:
+    ans = f"answered {got[1]!r}" if got[0] == "ok" else \
+        (f"gave no answer within {DEEP_LARGE_TIMEOUT_S} s" if got[1] == "_Timeout" else f"raised {got[1]}")
+    if q["q"] == "cmp":
+        d = DC.first_difference(LA, LB)
+        why = (f"the languages say {want}: L(A) and L(B) are {DC.relation_name(DC.compare(LA, LB)[0]).replace('_', ' ')} (A vs B)"
+               + (f", shortest word in the symmetric difference has {d} symbols" if d is not None else ""))
+    else:
+        L = LA if q["on"] == "A" else LB
+        why = f"the language of {q['on']} is {L.shape_name()}" + \
+            (f" (shortest word has {L.first_length()} symbols)" if not L.empty() else "")
+    return (f"{deep_large_show(q)} {ans} but {why} — A = {LA.expr()} [{LA.n_states_expected()}+ states]; "
+            f"B = {LB.expr()} [{LB.n_states_expected()}+ states]")
+
+
+def run_deep_large(specA: dict, specB: dict, queries, built=None):
+    """Ask the queries of ONE pair of objects built from the specs; [(query, got, want)] of the wrong answers
+    (the run stops at the second timeout)."""
+    LA, LB = DC.CmpLang(specA), DC.CmpLang(specB)
+    A, B = built if built is not None else (LA.build(), LB.build())
+    bad, timeouts, memo = [], 0, {}
+    for q in queries:
+        got, want = deep_large_ask(A, B, q), deep_large_want(LA, LB, q, memo)
+        if got != ("ok", want):
+            bad.append((q, got, want))
+            timeouts += got == ("err", "_Timeout")
+            if timeouts >= 2:
+                break
+    return bad
+
+
+def deep_large_selfcheck(ctx: Ctx, LA, LB, A: DFA, B: DFA) -> bool:
+    """Closed-form membership vs the real accepts_input, on the boundary words of both languages, for both automata."""
+    for L, other, d, nm in ((LA, LB, A, "A"), (LB, LA, B, "B")):
+        for w in L.selfcheck_words(ctx.rng, other):
+            ctx.stat("deep_large:selfcheck_words_through_accepts_input")
+            real = call(lambda: d.accepts_input(w))
+            if real != ("ok", L.member(w)):
+                ctx.stat("deep_large:selfcheck_disagreement")
+                ctx.corr_diff("deep-large-closed-form", dict(automaton=L.expr(), spec=L.spec, word_length=len(w),
+                                                             word_tail=w[-12:]),
+                              dict(accepts_input=real), dict(closed_form_member=L.member(w)))
+                return False
+    return True
+
+
+@guarded
+def check_deep_large(ctx: Ctx, tag: str, specA: dict, specB: dict):
+    if H.L.TIMEOUTS >= DEEP_LARGE_T0[0] + 3 or _new_fails(ctx) >= DEEP_LARGE_F0[0] + 4:
+        ctx.stat("deep_large:skipped_after_failures")
+        return
+    LA, LB = DC.CmpLang(specA), DC.CmpLang(specB)
+    b = call(lambda: (LA.build(), LB.build()))
+    if b[0] == "err":
+        # whether the constructors work on such sizes is C15's statement
+        ctx.stat("deep_large:construction_raised")
+        ctx.corr_diff("deep-large-construction", dict(A=LA.expr(), B=LB.expr(), specA=specA, specB=specB),
+                      f"raised {b[1]}", "two DFAs")
+        return
+    A, B = b[1]
+    want_ab = DC.compare(LA, LB)[0]
+    ctx.stat(f"deep_large:{tag}")
+    ctx.stat(f"deep_large:relation:{DC.relation_name(want_ab)}")
+    for L, d in ((LA, A), (LB, B)):
+        ctx.stat(f"deep_large:kind:{L.kind}")
+        ctx.stat(f"deep_large:lang:{L.shape_name()}")
+        ctx.stat(f"deep_large:states:{len(d.states) // 500 * 500}+")
+    ctx.stat("deep_large:closed_form_oracle_no_model_round_trip")
+    if not deep_large_selfcheck(ctx, LA, LB, A, B):
+        return
+    queries = deep_large_queries()
+    if ctx.stats.get(f"deep_large:{tag}", 0) == 1 and tag in DEEP_LARGE_SAMPLED:
+        ctx.sample(dict(family="deep_large", tag=tag, A=LA.expr(), B=LB.expr(), states=[len(A.states), len(B.states)],
+                        closed_form=dict(zip(NAMES, want_ab)), first_difference_at_length=DC.first_difference(LA, LB),
+                        A_lang=LA.shape_name(), B_lang=LB.shape_name(), queries=len(queries)))
+    nt = not LA.empty() and not LB.empty()
+    for q in queries:
+        ctx.case(("deep_large", json.dumps(specA, sort_keys=True), json.dumps(specB, sort_keys=True),
+                  json.dumps(q, sort_keys=True)) if nt else None)
+        ctx.stat("deep_large_q:" + (q["name"] + ":" + q["order"] if q["q"] == "cmp" else q["q"]))
+    bad = run_deep_large(specA, specB, queries, (A, B))
+    reported = 0
+    for q, got, want in bad:
+        # re-confirm on newly built objects, the query alone (so the replay is a statement about the tree)
+        again = run_deep_large(specA, specB, [q])
+        if not again:
+            ctx.stat("deep_large:failure_not_reproduced")
+            if got == ("err", "_Timeout"):
+                ctx.note(f"deep_large family: {deep_large_show(q)} on ({LA.expr()}, {LB.expr()}) timed out once and "
+                         f"answered on the second try")
+            else:
+                ctx.corr_diff("deep-large-not-reproduced", dict(A=LA.expr(), B=LB.expr(), specA=specA, specB=specB, query=q),
+                              repr(got), repr(("ok", want)))
+            continue
+        _, got2, want2 = again[0]
+        what = deep_large_what(LA, LB, q, got2, want2)
+        ctx.prop_fail(what, dict(op="deep_large", tag=tag, A=specA, B=specB, query=q, what=what))
+        reported += 1
+        if reported >= 2 or H.L.TIMEOUTS >= DEEP_LARGE_T0[0] + 3:
+            if len(bad) > reported:
+                ctx.note(f"deep_large family: {len(bad)} of {len(queries)} queries wrong on the pair [{tag}]; "
+                         f"{reported} re-confirmed and recorded")
+            return
+
+
+DEEP_LARGE_SAMPLED = ("of_length_upto_n_vs_n+1", "lasso_final_toggled_on_cycle", "count_mod_m_vs_2m_equal",
+                      "coprime_counters_common_word_at_depth")
+DEEP_LARGE_T0, DEEP_LARGE_F0 = [0], [0]
+
+
+@guarded
+def deep_large_twin(ctx: Ctx, tag: str, specA: dict, specB: dict):
+    """The same pair template with 3–9 states: the closed-form answers must coincide with this module's oracles
+    (product search / reachability / cycle detection on the objects built), then the pair goes through do_cmp /
+    do_emptyfin like any other small pair (model ↔ code ↔ oracle)."""
+    LA, LB = DC.CmpLang(specA), DC.CmpLang(specB)
+    A, B = LA.build(), LB.build()
+    ctx.stat("deep_large:small_twin")
+    closed = (DC.compare(LA, LB)[0], DC.compare(LB, LA)[0], LA.empty(), LA.finite(), LB.empty(), LB.finite())
+    brute = (truth(A, B), truth(B, A), is_empty(A), is_finite(A), is_empty(B), is_finite(B))
+    ctx.stat("deep_large:small_twin_answers_judged_by_both_oracles", 22)
+    if closed != brute:
+        ctx.stat("deep_large:small_twin_oracles_disagree")
+        ctx.corr_diff("deep-large-twin-closed-form-vs-oracle", dict(tag=tag, A=LA.expr(), B=LB.expr(), specA=specA, specB=specB),
+                      dict(product_search_oracle=brute), dict(closed_form=closed))
+        return
+    # closed-form membership vs accepts_input on every word up to the joint horizon (≤ 2^9 words)
+    top = min(DC.horizon(LA, LB), 8 if len(LA.syms) > 1 else 40)
+    import itertools
+    for L, d in ((LA, A), (LB, B)):
+        for k in range(top + 1):
+            for tup in itertools.product(L.syms, repeat=k):
+                w = "".join(tup)
+                if call(lambda: d.accepts_input(w)) != ("ok", L.member(w)):
+                    ctx.stat("deep_large:small_twin_oracles_disagree")
+                    ctx.corr_diff("deep-large-twin-membership", dict(tag=tag, automaton=L.expr(), spec=L.spec, word=w),
+                                  dict(accepts_input=call(lambda: d.accepts_input(w))), dict(closed_form_member=L.member(w)))
+                    return
+    do_cmp(ctx, A, B, "deep_large_twin")
+    do_cmp(ctx, B, A, "deep_large_twin")
+    do_emptyfin(ctx, A, "deep_large_twin", model_max_states=4)
+    do_emptyfin(ctx, B, "deep_large_twin", model_max_states=4)
+
+
+def deep_large_family(ctx: Ctx, rounds: int = 1):
+    import time
+    t0 = time.time()
+    DEEP_LARGE_T0[0], DEEP_LARGE_F0[0] = H.L.TIMEOUTS, _new_fails(ctx)
+    for _ in range(rounds):
+        for tag, sa, sb in deep_large_plan(ctx.rng, small=True):
+            deep_large_twin(ctx, tag, sa, sb)
+        t1 = time.time()
+        for tag, sa, sb in deep_large_plan(ctx.rng, small=False):
+            check_deep_large(ctx, tag, sa, sb)
+    if os.environ.get("VERIF_TIMING"):
+        print(f"[timing] C06 deep_large family: {time.time() - t0:.2f} s (last round: large pairs {time.time() - t1:.2f} s)", file=sys.stderr)
+
+
+
 def run(ctx: Ctx):
     rng = ctx.rng
+    deep_large_family(ctx, ctx.budget(1, 4))
     probe_temporaries(ctx)
     none_row_corpus(ctx)
     derived_after_query(ctx, ctx.budget(250, 6000))
@@ -834,6 +1161,9 @@ def run(ctx: Ctx):
 
 def search(ctx: Ctx):
     rng = ctx.rng
+    deep_large_family(ctx, ctx.budget(2, 6))
+    if _new_fails(ctx):
+        return
     derived_after_query(ctx, ctx.budget(500, 3000))
     mutable_option_family(ctx, ctx.budget(500, 3000))
     anchor_stream_family(ctx, ctx.budget(100, 800), 60)
@@ -863,6 +1193,15 @@ def replay(ctx: Ctx, path: str) -> int:
             print("  " + [f for f in ctx.prop_fails if f["key"] is None][0]["what"])
             return 1
         print("replay: property holds on the history families now")
+        return 0
+    if rp["op"] == "deep_large":
+        LA, LB = DC.CmpLang(rp["A"]), DC.CmpLang(rp["B"])
+        bad = run_deep_large(rp["A"], rp["B"], [rp["query"]])
+        if bad:
+            print(f"VIOLATION property=C06 replay={path}")
+            print("  " + deep_large_what(LA, LB, bad[0][0], bad[0][1], bad[0][2]))
+            return 1
+        print("replay: property holds on this input now")
         return 0
     if rp["op"] == "anchor_stream":
         # the recorded stream, run up to three times over (object addresses are not part of the record)
